@@ -4,11 +4,16 @@ import (
 	"errors"
 	"fmt"
 	"net"
+	"strings"
 )
 
 var ErrInvalidAddr = errors.New("invalid IP subnet/host")
 
 func ParseIPNet(subnet string) (*net.IPNet, error) {
+	// only IPv4 is supported: every textual form of an IPv6 address or subnet contains a colon
+	if strings.Contains(subnet, ":") {
+		return nil, ErrInvalidAddr
+	}
 	_, result, err := net.ParseCIDR(subnet)
 	if err == nil {
 		return result, err
